@@ -21,7 +21,7 @@ func orderBegin(spec *fwproto.OrderSpec) {
 func orderEnd(call *fwproto.Call) {
 	vs, un := verifsim.End()
 	for _, v := range vs {
-		call.Visits = append(call.Visits, fwproto.OrderVisit{Site: v.Site, N: v.N, Perm: v.Perm})
+		call.Visits = append(call.Visits, fwproto.OrderVisit{Site: v.Site, Idx: v.Idx, N: v.N, Perm: v.Perm})
 	}
 	call.Unident = un
 }
